@@ -276,6 +276,15 @@ func runStress(cs Case) outcome {
 		return outcome{status: "inconclusive", detail: "open: " + err.Error()}
 	}
 	defer s.closeFn()
+	var rec *recorder
+	if cs.Rec {
+		rec = &recorder{tr: 500000 + cs.N, server: s.srv}
+		recs.Store(s.sc, rec)
+		recs.Store(s.srv, rec)
+		defer recs.Delete(s.sc)
+		defer recs.Delete(s.srv)
+	}
+	var earlyFailed int64 // sends that failed before anything of the message was written
 	var kept []callRes // every delivered response is kept and compared again at the end
 	failCalls := 0
 	rnd := vfgo.Rand(int64(cs.N) + 77)
@@ -328,8 +337,16 @@ func runStress(cs Case) outcome {
 					ctx, cancel = context.WithTimeout(context.Background(), time.Duration(50+frnd.Intn(1500))*time.Microsecond)
 					extra = 4000
 				}
-				r := s.callN(ctx, 900000+f*1000+i%1000, 120*time.Second, extra)
+				ftag := 900000 + f*1000 + i%1000
+				r := s.callN(ctx, ftag, 120*time.Second, extra)
 				cancel()
+				if rec != nil && r.out != "ok" {
+					if id, written := s.ctl.writtenID(ftag); !written {
+						atomic.AddInt64(&earlyFailed, 1)
+					} else {
+						rec.abortAfter(id)
+					}
+				}
 				fr.n++
 				if r.out != "ctx" && fr.bad == "" {
 					fr.bad = fmt.Sprintf("call %d of failing caller %d returned %q (%s)", i, f, r.out, r.err)
@@ -469,5 +486,14 @@ func runStress(cs Case) outcome {
 				detail: fmt.Sprintf("the %d byte ByteString of the response tag=%d mid=%d no longer equals what the server sent after later messages were received", len(r.payload), r.gotTag, r.gotMid)}
 		}
 	}
-	return outcome{status: "ok", class: class, obs: map[string]any{"calls": cs.Callers*cs.Rounds + 1, "responses": mid, "payload_bytes": s.paySize, "failing_callers": nFail, "ended_context_calls": failCalls}}
+	o := map[string]any{"calls": cs.Callers*cs.Rounds + 1, "responses": mid, "payload_bytes": s.paySize, "failing_callers": nFail, "ended_context_calls": failCalls}
+	if rec != nil {
+		rec.mu.Lock()
+		o["events"] = append([]scEvent(nil), rec.events...)
+		rec.mu.Unlock()
+		o["tr"] = rec.tr
+		o["scenario"] = "manycaller"
+		o["failed_sends"] = atomic.LoadInt64(&earlyFailed)
+	}
+	return outcome{status: "ok", class: class, obs: o}
 }
